@@ -205,7 +205,7 @@ def relayout(rng, src, spans, layout=None):
             arr_depth = max(0, arr_depth - 1)
         out.append(text)
         prev = (a, b, ty)
-        prev_line = ln
+        prev_line = line_of(max(a, b - 1))   # the line on which this token ENDS (a text literal may span lines)
         col_tokens += 1
     # tail: optional end-of-line comment, trailing newline(s)
     if rng.random() < L['comment_eol']:
